@@ -233,6 +233,29 @@ def decide_guard(prog, rep, f, is_site, sites, what, must_write=("Pending",)):
     return all(state_guarded(prog, f, c.bb) for c in sites)
 
 
+def clause_foreign_routing_id(prog, rep):
+    """an invitation for a *new* MLS group id that carries the Nostr group id of a group the user already holds must not touch that
+    group: storing the pending record has to collide (error) rather than overwrite — memory refuses explicitly, SQLite by keying the
+    upsert on the primary key while nostr_group_id stays unique"""
+    import sqlmod
+    sch = sqlmod.Schema()
+    ups = [s_ for s_ in sqlmod.collect(prog) if s_.stmt.kind == "INSERT" and s_.stmt.table == "groups" and s_.stmt.conflict_cols is not None
+           and not (s_.fn.root and "snapshot" in s_.fn.root)]
+    rep.floor("existing-group-untouched", "groups upsert (SQLite save_group)", len(ups), 1)
+    for s_ in ups:
+        rep.check(not s_.stmt.conflict_any and s_.stmt.conflict_cols == sch.pk("groups") and ["nostr_group_id"] in sch.tables["groups"]["unique"],
+                  "existing-group-untouched", "sqlite/save_group/foreign-routing-id-collides",
+                  "a pending record carrying another group's nostr_group_id is refused by the unique index (upsert keyed by mls_group_id only)",
+                  "a pending record carrying another group's nostr_group_id overwrites that group's row (upsert conflict target: %s)"
+                  % ("any unique index" if s_.stmt.conflict_any else s_.stmt.conflict_cols), s_.loc())
+    fs = prog.find(adt="MdkMemoryStorage", name="save_group", trait="GroupStorage")
+    for f in fs:
+        refuses = any(True for _ in f.aggregates("GroupError", "InvalidParameters")) and any(c.name in ("ne", "eq") for c in f.live_calls())
+        rep.check(refuses, "existing-group-untouched", "memory/save_group/foreign-routing-id-collides",
+                  "the memory backend refuses a record whose nostr_group_id belongs to a different group",
+                  "the memory backend no longer refuses a nostr_group_id that belongs to a different group", f.loc())
+
+
 def clause_existing_group(prog, rep, pw):
     """writes keyed by the inviter-chosen group id must depend on a lookup of that id (existing Active group untouched)"""
     lookups = [c for c in pw.live_calls() if A.ReachCache(prog, lambda x: K.is_storage_trait_call(x, "find_group_by_mls_group_id")).call(c)
@@ -325,5 +348,6 @@ def run(ctx, rep):
     clause_dedup(prog, rep, pw)
     clause_preview_gate(prog, rep, pw)
     clause_existing_group(prog, rep, pw)
+    clause_foreign_routing_id(prog, rep)
     clause_pending_only(prog, rep, pw)
     clause_accept_decline(prog, rep)
